@@ -48,7 +48,7 @@ Proof.
   assert (len k <= len j)%nat.
   { unfold parse_operator in O. pose proof (eat_ws_len j).
     destruct (eqc (peek (eat_ws j)) 61).
-    - inversion O; subst. pose proof (adv_len (eat_ws j)). lia.
+    - destruct (_ || _) in O; [discriminate|]. inversion O; subst. pose proof (adv_len (eat_ws j)). lia.
     - destruct (eqc (peek (eat_ws j)) 0 || eqc (peek (adv (eat_ws j))) 0); [discriminate|].
       destruct (_ || _) in O; [|discriminate]. inversion O; subst.
       pose proof (adv_len (eat_ws j)). pose proof (adv_len (adv (eat_ws j))). lia. }
@@ -201,7 +201,7 @@ Proof.
     { intros nm j. revert nm. induction j as [|c j IH]; intros nm; cbn; [discriminate|].
       destruct (eqc c 0); [discriminate|]. destruct (eqc c 41); [discriminate|apply IH]. }
     destruct (number_loop [] (eat_ws k)) as [[n m]| |] eqn:N; try discriminate. exfalso. eapply G; eauto.
-  - exfalso. unfold parse_operator in O. destruct (eqc _ 61); [discriminate|]. destruct (_ || _); [discriminate|]. destruct (_ || _); discriminate.
+  - exfalso. unfold parse_operator in O. destruct (eqc _ 61); [destruct (_ || _); discriminate|]. destruct (_ || _); [discriminate|]. destruct (_ || _); discriminate.
 Qed.
 
 Lemma peek_nonempty i n : eqc (peek i) n = true -> n <> 0%N -> i <> [].
